@@ -124,6 +124,10 @@ func vC19Check(tp *ethTxPool, accepted []vC19Tx, limit int) {
 		}
 	}
 	vAssert(len(tp.all) == inPool, "lookup-holds-exactly-the-pooled-txs")
+	// the eviction timer looks every account with a heartbeat up in the waiting queue without a nil check
+	for addr := range tp.waitingBeats {
+		vAssert(tp.waiting[addr] != nil, "heartbeat-only-for-accounts-with-waiting-txs")
+	}
 }
 
 func VerifHarness_C19_pool_history() {
